@@ -394,7 +394,10 @@ impl TypeChecker {
                 name,
                 full_name,
             } => {
-                let type_scheme = self.identifier_type(*span, name)?.clone();
+                let type_scheme = match self.env.get_unit_type(name) {
+                    Some(type_scheme) => type_scheme,
+                    None => self.identifier_type(*span, name)?.clone(),
+                };
 
                 let qt = type_scheme.instantiate(&mut self.name_generator);
 
